@@ -166,11 +166,27 @@ pub fn c11(cfg: &Cfg) -> i32 {
             } else if fam < 8 {
                 let (b, g, m) = gen::w3(&mut rng);
                 (b, g, m, policy_for(Family::W3, &mut rng), 300)
-            } else {
+            } else if fam < 9 {
                 let (b, g, m) = gen::w3(&mut rng);
                 match cycler_script(&b, g, &mut rng) {
                     Some(s) => (b, g, m, Policy::Script(s), 300),
                     None => (b, g, m, Policy::Reverser, 300),
+                }
+            } else if i % 40 == 9 {
+                // W5c: far-apart repetitions
+                let (b, g, m) = long_cycler_position(&mut rng);
+                match long_cycler_script(&b, g, 40 + rng.below(60), &mut rng) {
+                    Some(s) => (b, g, m, Policy::Script(s), 500),
+                    None => (b, g, m, Policy::Reverser, 300),
+                }
+            } else {
+                // W5b: states where every turn-ender is withheld
+                match saturated_script(&mut rng) {
+                    Some((b, g, s, _)) => (b, g, 2 + rng.below(40) as u64, Policy::Script(s), 300),
+                    None => {
+                        let (b, g, m) = gen::w3(&mut rng);
+                        (b, g, m, Policy::Reverser, 300)
+                    }
                 }
             };
             let start = if rng.chance(1, 8) { Start::Text { board: b, gold, moveno: mv } } else { Start::Inject { board: b, gold, moveno: mv } };
@@ -187,7 +203,7 @@ pub fn c11(cfg: &Cfg) -> i32 {
         sink.add("states_with_withheld_actions", st.withheld_states);
     });
     let floors = vec![floor("twin_states", 800_000, 8_000_000), floor("twin_states_mirror", 200_000, 2_000_000), floor("twin_states_colour_swap_rank_flip", 200_000, 2_000_000), floor("twin_states_both", 200_000, 2_000_000), floor("capture_previews_compared_nonempty", 3000, 30_000), floor("states_with_withheld_actions", 10_000, 100_000), floor("terminal_results_mirror", 100, 1000), floor("terminal_results_colour_swap_rank_flip", 100, 1000)];
-    conclude(cfg, sink, report("twin_states", "W1/W2/W3/W5 games played in lock-step with their image under file mirror, colour swap + rank flip, or both (round robin); at every state the image of the offered set, of the rule-only set, of the result and of the capture preview of the chosen action must equal the twin's, and the boards must stay images. Order of lists, hashes and move numbers are not compared. distinct_nontrivial = distinct states with withheld actions plus distinct (state, capturing action).", floors, &["no oracle other than the engine itself (metamorphic)"]))
+    conclude(cfg, sink, report("twin_states", "W1/W2/W3/W5/W5b/W5c games played in lock-step with their image under file mirror, colour swap + rank flip, or both (round robin); at every state the image of the offered set, of the rule-only set, of the result and of the capture preview of the chosen action must equal the twin's, and the boards must stay images. Order of lists, hashes and move numbers are not compared. distinct_nontrivial = distinct states with withheld actions plus distinct (state, capturing action).", floors, &["no oracle other than the engine itself (metamorphic)"]))
 }
 
 // ---------------------------------------------------------------------------------------------
